@@ -873,6 +873,14 @@ impl TransportManager {
                 ?error,
                 "connection limit exceeded, rejecting connection",
             );
+
+            // The connection is dropped by the transport without any further event. If it is the
+            // result of an outbound dial tracked in the peer state, conclude that dial here, otherwise
+            // the peer would be considered as being dialed forever.
+            if let Some(context) = self.peers.write().get_mut(&peer) {
+                context.state.on_dial_failure(endpoint.connection_id());
+            }
+
             return Ok(ConnectionEstablishedResult::Reject);
         }
 
